@@ -140,15 +140,32 @@ def holdTokens : List Nat :=
     if i.fns.any fun f => f.callees.any fun c => releaseOps.contains c then some i.selfTy.head else none
   base ++ (structs.filter fun s => !s.isEnum && s.fields.any fun f => base.contains f.ty.head && !f.ty.isRef).map (·.name)
 
-/-- the key-less hold tokens (the structs whose `Drop` releases a raw lock) get their `Send`-ness
-from the raw lock's `GuardMarker` (`GuardNoSend` for parking_lot): each must carry a
-`PhantomData<R::GuardMarker>` field — any other marker type silently changes the auto traits -/
+mutual
+/-- the type contains a raw pointer (which makes whatever holds it `!Send` and `!Sync`) -/
+def Ty.hasRawPtr : Ty → Bool
+  | .ptr _ _ => true
+  | .path _ args => Ty.hasRawPtrL args
+  | .ref _ _ t => Ty.hasRawPtr t
+  | .tup ts => Ty.hasRawPtrL ts
+  | .slice t => Ty.hasRawPtr t
+  | .arr t => Ty.hasRawPtr t
+  | _ => false
+def Ty.hasRawPtrL : List Ty → Bool
+  | [] => false
+  | t :: ts => Ty.hasRawPtr t || Ty.hasRawPtrL ts
+end
+
+/-- the key-less hold tokens (the structs whose `Drop` releases a raw lock) must never be `Send`,
+whatever the raw lock's `GuardMarker` says: each carries a `PhantomData` over a raw pointer. The
+guards hand out `&mut` to them (`DerefMut` / `AsMut`), so a `Send` token could be lent to another
+thread and swapped with the token inside that thread's guard — which then unlocks a lock its thread
+never acquired and returns its key while its own lock stays held (D18, repaired). -/
 def c15_holdTokenMarkers : List Nat :=
   let base := (implsOfTrait Sym.Drop).filterMap fun i =>
     if i.fns.any fun f => f.callees.any fun c => releaseOps.contains c then some i.selfTy.head else none
   (structs.filter fun s => base.contains s.name &&
     !(s.fields.any fun f => match f.ty with
-      | .path n [.assoc _ a _] => n == Sym.PhantomData && a == Sym.GuardMarker
+      | .path n args => n == Sym.PhantomData && Ty.hasRawPtrL args
       | _ => false)).map (·.name)
 
 /-- a hold must not be duplicable or conjurable: no `Clone`/`Copy`/`Default` for a hold token -/
